@@ -92,7 +92,7 @@ func cn(c cid.Cid) string {
 	return c.String()
 }
 
-const ruleBatch = "state machine on one real CRDT replica: configuration drawn from {batching off, size-triggered (size 1-5, age 30 s), age-triggered (size 50, age 150-300 ms), small queue (1-3)}; actions pin (well-formed pins over 4 CIDs), unpin, burst of n operations, pause longer than the age, datastore fault on/off (block writes of go-ds-crdt fail); model = accepted operations in order and the committed map; oracle: errors are ErrMaxQueueSizeReached (batching on) or the injected failure (batching off) and a refused operation has no effect; once size operations are accepted, or the age elapsed, the state equals the model with all of them applied, and before that (age 30 s) it is still the previous committed state; per CID the last accepted operation wins; after faults are off and a further trigger everything accepted is applied and a sentinel pin becomes visible; the tracker's last event per CID matches; non-trivial = a batch with two operations on one CID, a queue overflow, or a fault; distinct by script"
+const ruleBatch = "state machine on one real CRDT replica: configuration drawn from {batching off, size-triggered (size 1-5, age 30 s), age-triggered (size 50, age 150-300 ms), small queue (1-3)}; actions pin (well-formed pins over 4 CIDs), unpin, burst of n operations, pause longer than the age, a trickle (operations every age/2 for 8 ages, fewer than the batch size), datastore fault on/off (block writes of go-ds-crdt fail); model = accepted operations in order and the committed map; oracle: errors are ErrMaxQueueSizeReached (batching on) or the injected failure (batching off) and a refused operation has no effect; once size operations are accepted, or the age elapsed, the state equals the model with all of them applied, and before that (age 30 s) it is still the previous committed state; per CID the last accepted operation wins; after faults are off and a further trigger everything accepted is applied and a sentinel pin becomes visible; the tracker's last event per CID matches; non-trivial = a batch with two operations on one CID, a queue overflow, or a fault; distinct by script"
 
 func TestBatching(t *testing.T) {
 	leg := ev.L("batching", ruleBatch)
@@ -130,6 +130,7 @@ func TestBatching(t *testing.T) {
 		classes := map[string]bool{}
 		faulty := false
 		everFaulty := false
+		trickled := false
 		fail := func(format string, a ...interface{}) {
 			t.Fatalf("%s\nscript: %s", fmt.Sprintf(format, a...), strings.Join(script, " ; "))
 		}
@@ -282,6 +283,34 @@ func TestBatching(t *testing.T) {
 				if !everFaulty {
 					sync("after a pause longer than the batch age", len(pending), len(pending), 20*time.Second)
 				}
+			},
+			"trickle": func(t *rapid.T) {
+				// operations keep arriving closer together than the batch age and
+				// never fill the batch: the age limit alone must commit them
+				if mode != "age" || everFaulty || trickled {
+					t.Skip("needs the age trigger, no faults, once per case")
+				}
+				trickled = true
+				sync("before a trickle", len(pending), len(pending), 20*time.Second)
+				var at []time.Time
+				start := time.Now()
+				for time.Since(start) < 8*age && len(at) < 40 {
+					if submit(true, drawPin(t)) {
+						at = append(at, time.Now())
+					}
+					time.Sleep(age / 2)
+				}
+				script = append(script, fmt.Sprintf("[trickle of %d over %v]", len(at), time.Since(start).Round(time.Millisecond)))
+				due := 0
+				now := time.Now()
+				for _, a := range at {
+					if now.Sub(a) > 6*age {
+						due++
+					}
+				}
+				classes["trickle"] = true
+				classes["nontrivial"] = true
+				sync(fmt.Sprintf("operations kept arriving every %v for %v: the %d accepted more than 6 batch ages ago must have been committed by the age limit", age/2, time.Since(start).Round(time.Millisecond), due), due, len(pending), age/2)
 			},
 			"faultOn": func(t *rapid.T) {
 				if faulty {
@@ -534,7 +563,7 @@ func TestConvergence(t *testing.T) {
 		}
 		// CIDs written on two replicas with an unpin among the writes: content is
 		// subject to the listed dependency finding; membership is always compared
-		risky := map[string]bool{}      // content may differ (listed finding)
+		risky := map[string]bool{}       // content may differ (listed finding)
 		riskyMember := map[string]bool{} // membership may differ (listed finding)
 		for c, w := range writers {
 			if len(w) >= 2 {
